@@ -153,8 +153,9 @@ type Spec struct {
 	Cancel    []Cond
 
 	// fallback
-	FbV int
-	FbE error
+	FbV    int
+	FbE    error
+	FbEcho bool // the fallback's output is derived from the failure it handles: (that result + 100, FbE)
 
 	// cache
 	Key     string
@@ -216,6 +217,9 @@ func (s Spec) String() string {
 		return x + ")"
 	case KFallback:
 		x := "fallback("
+		if s.FbEcho {
+			x += "echo+"
+		}
 		if s.FbE != nil {
 			x += s.FbE.Error()
 		} else {
@@ -666,6 +670,9 @@ func (env *Env) build(i int, s Spec) failsafe.Policy[int] {
 			s0 := env.seqNow()
 			env.ev(Event{Seq0: s0, Policy: i, Name: "fbcall", HasStats: true, Attempts: e.Attempts(), Executions: e.Executions(), Retries: e.Retries(), Hedges: e.Hedges(),
 				LastV: e.LastResult(), LastE: e.LastError()})
+			if s.FbEcho {
+				return e.LastResult() + 100, s.FbE
+			}
 			return s.FbV, s.FbE
 		})
 		b = applyHandle(b, s.Handle)
@@ -845,4 +852,12 @@ func exeOf(ctx context.Context) int {
 		return v
 	}
 	return -1
+}
+
+// fbOutput is what the fallback configured by s produces for a failure whose result is v.
+func fbOutput(s Spec, v int) (int, error) {
+	if s.FbEcho {
+		return v + 100, s.FbE
+	}
+	return s.FbV, s.FbE
 }
